@@ -13,6 +13,7 @@ import XzVerif.Model.Lzma
 import XzVerif.Lemmas.C04Rc
 import XzVerif.Lemmas.C03Hoare
 import XzVerif.Lemmas.C03Rc
+import XzVerif.Lemmas.C03Reps
 
 namespace XzVerif.C04Sym
 open XzVerif.RangeDec XzVerif.Lzma
@@ -203,6 +204,27 @@ theorem trb_rcBit (idx : Nat) (pre : List Kind) : TrB (rcBit idx) pre (fun b sh 
 theorem replicate_snoc (n : Nat) (k : Kind) (pre : List Kind) : pre ++ [k] ++ List.replicate n k = pre ++ List.replicate (n + 1) k := by
   rw [List.append_assoc]; rfl
 
+/-- state after the normalisation that precedes a bit -/
+def AccN (s0 : St) (pre : List Kind) (s1 : St) : Prop :=
+  ∃ s, Acc s0 pre s ∧ s1.range = (normR s.range).1 ∧ s1.inPos = s.inPos + (normR s.range).2 ∧ s1.probs = s.probs
+
+theorem tri_normalize (s0 : St) (pre : List Kind) : Tri (Acc s0 pre) rcNormalize (fun _ s1 => AccN s0 pre s1) :=
+  fun s hacc u s1 hn => ⟨s, hacc, rcNormalize_ok s u s1 hn⟩
+
+theorem tri_directStep (s0 : St) (pre : List Kind) :
+    Tri (AccN s0 pre)
+      (fun s : St =>
+        let r := directCore (Rc.mk s.range s.code)
+        EStateM.Result.ok r.1 { s with range := r.2.range, code := r.2.code } : M Nat)
+      (fun _ s2 => Acc s0 (pre ++ [D]) s2) := by
+  intro s1 hp b s2 e
+  obtain ⟨s, hacc, n1, n2, n3⟩ := hp
+  injection e with _ h2
+  refine hacc.snoc { kind := .direct } (fun hk => by cases hk) ?_ ?_ ?_
+  · rw [← h2, ← n1]; exact directCore_range _
+  · rw [← h2, ← n2]
+  · rw [← h2]; unfold PI; show ∀ i, i < s1.probs.size → _; rw [n3]; exact hacc.1
+
 /-- `rc_direct`: `n` direct bits -/
 theorem trb_rcDirect : ∀ (n dest : Nat) (pre : List Kind),
     TrB (rcDirect n dest) pre (fun _ sh => sh = pre ++ List.replicate n D)
@@ -211,30 +233,11 @@ theorem trb_rcDirect : ∀ (n dest : Nat) (pre : List Kind),
     exact TrB.pure _ (by simp)
   | n + 1, dest, pre => by
     unfold rcDirect
-    -- normalisation and the direct step together are one `Acc.snoc`
-    intro s0 s hacc b s' e
-    have e' : EStateM.bind rcNormalize _ s = .ok b s' := e
-    unfold EStateM.bind at e'
-    cases hn : rcNormalize s with
-    | error er s1 => rw [hn] at e'; cases e'
-    | ok u s1 =>
-      rw [hn] at e'
-      obtain ⟨n1, n2, n3⟩ := rcNormalize_ok s u s1 hn
-      have e'' : rcDirect n ((dest * 2 + (directCore (Rc.mk s1.range s1.code)).1) % U32)
-          ({ s1 with range := (directCore (Rc.mk s1.range s1.code)).2.range,
-                     code := (directCore (Rc.mk s1.range s1.code)).2.code } : St) = .ok b s' := e'
-      generalize hs2 : ({ s1 with range := (directCore (Rc.mk s1.range s1.code)).2.range,
-                                  code := (directCore (Rc.mk s1.range s1.code)).2.code } : St) = s2 at e''
-      have r2 : s2.range = (directCore (Rc.mk s1.range s1.code)).2.range := by rw [← hs2]
-      have i2 : s2.inPos = s1.inPos := by rw [← hs2]
-      have p2 : s2.probs = s1.probs := by rw [← hs2]
-      have hacc1 : Acc s0 (pre ++ [D]) s2 := by
-        refine hacc.snoc { kind := .direct } (fun hk => by cases hk) ?_ ?_ ?_
-        · rw [r2, directCore_range, ← n1]
-        · rw [i2, n2]
-        · unfold PI; rw [p2, n3]; exact hacc.1
-      obtain ⟨sh, hsh, hacc2⟩ := trb_rcDirect n _ (pre ++ [D]) s0 s2 hacc1 b s' e''
-      exact ⟨sh, by rw [hsh, replicate_snoc], hacc2⟩
+    intro s0
+    refine Tri.bind (tri_normalize s0 pre) (fun _ => Tri.bind (tri_directStep s0 pre) (fun b => ?_))
+    refine Tri.weaken (trb_rcDirect n _ (pre ++ [D]) s0) (fun _ h => h) (fun _ s' h => ?_)
+    obtain ⟨sh, hsh, hacc2⟩ := h
+    exact ⟨sh, by rw [hsh, replicate_snoc], hacc2⟩
 
 /-- normal bit tree of `n` levels: `n` probability bits, result in `[sym·2^n, (sym+1)·2^n)` -/
 theorem trb_bittree (base : Nat) : ∀ (n sym : Nat) (pre : List Kind),
